@@ -339,13 +339,22 @@ func checkC16(w *World, r *Report) {
 			for _, s := range splits {
 				// a failed split ends the upgrade step with an error (so the persist is never reached after a failure) ...
 				fail := NilEdges(mavp, errValues(mavp, siteValue(s)), false)
-				if len(fail) == 0 {
-					ok = false
-				}
+				failsAll := len(fail) > 0
 				for _, e := range fail {
 					if !FailsFrom(e.To()) {
-						ok = false
+						failsAll = false
 					}
+				}
+				if !failsAll {
+					// `if err == nil { store }; return err`: assuming the split failed, the persist cannot follow and every
+					// return carries the error
+					if c, isC := s.Instr.(*ssa.Call); isC {
+						kept, after := errorKeptUnderX(mavp, c, errValues(mavp, siteValue(s)))
+						failsAll = kept && !after[p.Instr.Block()]
+					}
+				}
+				if !failsAll {
+					ok = false
 				}
 				// ... and no split follows the persist (straight-line calls or a loop over a table alike)
 				if instrReachableFrom(p.Instr, s.Instr) {
@@ -361,11 +370,29 @@ func checkC16(w *World, r *Report) {
 					continue
 				}
 				pb := p.Instr.Block()
-				if !(pb == ret.Block() || pb.Dominates(ret.Block())) {
+				if pb == ret.Block() || pb.Dominates(ret.Block()) {
+					continue
+				}
+				// `if err == nil { store }; return err`: the return is reached without the store only over an edge on
+				// which the returned error is known to be non-nil
+				avoid := map[Edge]bool{}
+				if len(rv) > 0 && isErrorType(rv[len(rv)-1].Type()) {
+					for _, e := range NilEdges(mavp, map[ssa.Value]bool{rv[len(rv)-1]: true}, false) {
+						avoid[e] = true
+					}
+				}
+				for _, b := range mavp.Blocks {
+					for i, sc := range b.Succs {
+						if sc == pb {
+							avoid[Edge{b, i}] = true
+						}
+					}
+				}
+				if reachAvoiding(mavp, avoid)[ret.Block()] {
 					early = w.Pos(ret.Pos())
 				}
 			}
-			r.Check(early == "", "C16.atomic", "the routine reports success only after the pools were stored", w.Pos(p.Instr.Pos()), "the persist dominates every return whose error may be nil", "the pool routine can report success without storing the split pools (return at "+early+") although the vesting types were already rewritten: the split is applied partially")
+			r.Check(early == "", "C16.atomic", "the routine reports success only after the pools were stored", w.Pos(p.Instr.Pos()), "every return is reached either through the persist or over an edge on which the returned error is non-nil", "the pool routine can report success without storing the split pools (return at "+early+") although the vesting types were already rewritten: the split is applied partially")
 			r.Check(ok, "C16.atomic", "persist after every split succeeded", w.Pos(p.Instr.Pos()), fmt.Sprintf("every failure edge of the %d split call site(s) returns the error; no split is reachable after the persist", len(splits)), "the pools can be persisted after only some of the splits")
 		}
 	}
